@@ -43,7 +43,7 @@ def report_unit(rep, cd: Codecs, u, rule="codec-symmetry", skip_subs=()):
     return un
 
 
-def attr_linkage(rep, cd: Codecs, u, rule="codec-symmetry"):
+def attr_linkage(rep, cd: Codecs, u, rule="codec-symmetry", reader_driven=True):
     """Every attribute the writer reads is reconstructed by the reader as itself (order, transform, attribute)."""
     un = cd.unify(u)
     obj = un.result_obj
@@ -80,7 +80,7 @@ def attr_linkage(rep, cd: Codecs, u, rule="codec-symmetry"):
     reads = writer_attr_reads(cd.prog, u)
     # reader-driven: an attribute reconstructed from the stored value of ANOTHER attribute
     for a, got in sorted(obj["attrs"].items()):
-        if a in reads or got is None:
+        if a in reads or got is None or not reader_driven:
             continue
         g0 = got.value if isinstance(got, ast.Attribute) and got.attr == "value" else got
         if isinstance(g0, ast.Attribute) and norm(g0.value) == "self" and g0.attr != a and cd.prog.lookup_method(u.cls, g0.attr) is None if u.cls else False:
